@@ -1,18 +1,30 @@
 import vlib
 
+# Known finding class: SelectorAndNamedPortIndex panics ("discard of unknown ID") when an endpoint whose parent-id list names
+# the same parent twice is deleted or stops naming that parent.  Only the directed scenario produces it.
+def classify(case_line):
+    tags = case_line.get("tags", [])
+    if "np:panic" in tags and "np:duplicate-parent-ids" in tags:
+        return "np-duplicate-parent-panic"
+    return None
+
 CFG = dict(
+    classify=classify,
     imports=["From Verif.Common Require Import Labels.", "From Verif.C07 Require Import Model Spec."],
     checker="check_case",
-    n=dict(quick=400, thorough=12000),
-    shard=50,
-    rule="four streams on the real code: (idx, 50%) histories of 10-35 calls of UpdateLabels/DeleteLabels/UpdateParentLabels/"
+    n=dict(quick=320, thorough=12000),
+    shard=40,
+    rule="five streams on the real code: (idx, 40%) histories of 10-35 calls of UpdateLabels/DeleteLabels/UpdateParentLabels/"
          "DeleteParentLabels/UpdateSelector/DeleteSelector on the real InheritIndex over 2-4 items, 1-3 parents, 2-4 selector ids, "
          "labels a,b,c with values x,y,z,xy,yx (own labels overriding inherited ones, nil/empty/non-empty parent label maps, duplicate "
-         "parent ids, re-sent unchanged selectors); (restr, 25%) selectors built by the real parser (all node types, nesting <= 3, "
+         "parent ids, re-sent unchanged selectors); (restr, 20%) selectors built by the real parser (all node types, nesting <= 3, "
          "empty sets, !has, negated groups) with their real LabelRestrictions() and real Evaluate on 8 label maps; (ri, 10%) "
-         "AddSelector/DeleteSelector/AllPotentialMatches histories on the real LabelRestrictionIndex; (nv, 15%) Add/Remove/"
-         "StrategyFor+Scan histories on the real LabelNameValueIndex.  non-trivial = idx: a stop callback and a match moved by a "
-         "parent-label change occur; restr: non-empty restrictions and both evaluation results occur; ri/nv: some query was "
+         "AddSelector/DeleteSelector/AllPotentialMatches histories on the real LabelRestrictionIndex; (nv, 10%) Add/Remove/"
+         "StrategyFor+Scan histories on the real LabelNameValueIndex; (np, 20%) UpdateEndpointOrSet/DeleteEndpoint/UpdateParentLabels/"
+         "DeleteParentLabels histories on the real SelectorAndNamedPortIndex with the output of iterEndpointCandidates for generated "
+         "selectors (compared with the model under every iteration order of the restriction map), plus one directed scenario "
+         "with a duplicated parent id.  non-trivial = idx: a stop callback and a match moved by a "
+         "parent-label change occur; restr: non-empty restrictions and both evaluation results occur; ri/nv/np: some query was "
          "answered with fewer candidates than live selectors/items; distinct by full input",
     trusted=["Coq 8.16.1 kernel + vm_compute",
              "hand-written models coq/theories/C07/Model.v (+ Common/Labels.v selector semantics) tied to felix/labelindex, "
